@@ -188,6 +188,15 @@ theorem pinv_step (c : Cfg) (dest0 : List Stored) (s : PSt) (op : POp) (h : PInv
         · intro j b hb; have := h.subsIn j b hb; simp only [BIn, hcs.1, hend] at this ⊢; exact this
         · intro b hb; have := h.chanIn b hb; simp only [BIn, hcs.1, hend] at this ⊢; exact this
         · intro x hx; have := h.added x hx; simp only [hcs.1, hend]; exact this
+      | abandon w =>
+        have hd := step_delivered_other c s.f (.abandon w) (by simp) (by simp)
+        refine ⟨hfi, ?_, ?_, ?_, ?_, ?_, ?_, h.ackedIn, h.mono⟩
+        · intro i; simp only [hd]; exact h.stage i
+        · intro hl; exact cancel_mono c s.f _ (h.lostc hl)
+        · intro hf; exact cancel_mono c s.f _ (h.failc hf)
+        · intro j b hb; have := h.subsIn j b hb; simp only [BIn, hcs.1, hend] at this ⊢; exact this
+        · intro b hb; have := h.chanIn b hb; simp only [BIn, hcs.1, hend] at this ⊢; exact this
+        · intro x hx; have := h.added x hx; simp only [hcs.1, hend]; exact this
       | close =>
         have hd := step_delivered_other c s.f .close (by simp) (by simp)
         refine ⟨hfi, ?_, ?_, ?_, ?_, ?_, ?_, h.ackedIn, h.mono⟩
@@ -292,6 +301,40 @@ theorem pinv_step (c : Cfg) (dest0 : List Stored) (s : PSt) (op : POp) (h : PInv
         · left; exact h.ackedIn b hb i h1 h2
       · intro x hx; simp only [List.mem_append]; left; exact h.mono x hx
     · exact h
+  | ackPartial j refused =>
+    simp only [pstep]
+    split
+    · rename_i lo k hj
+      have hin := h.subsIn j (lo, k) hj
+      have hfi := inv_step c.env s.f .cancel rfl h.fi
+      refine ⟨hfi, ?_, ?_, ?_, ?_, h.chanIn, ?_, ?_, ?_⟩
+      · intro i
+        have := h.stage i
+        have h1 := ocnt_set s.subs j (some (lo, k)) none i hj
+        simp only [giveUp, step, oneB, bcnt] at h1 ⊢
+        omega
+      · intro _; simp [giveUp, step]
+      · intro _; simp [giveUp, step]
+      · intro j' b' hb'
+        simp only [giveUp, getElem?_set_cases] at hb'
+        split at hb'
+        · simp at hb'
+        · exact h.subsIn j' b' hb'
+      · intro x hx
+        simp only [giveUp, List.mem_append, List.mem_filter] at hx
+        rcases hx with hx | ⟨hx, _⟩
+        · exact h.added x hx
+        · right
+          have := mem_storeBatch c lo k x hx
+          simp only [BIn] at hin
+          show Faithful c x ∧ s.f.start0 ≤ x.idx ∧ x.idx < s.f.end_
+          refine ⟨?_, by omega, by omega⟩
+          rw [this.1]; exact ⟨rfl, rfl⟩
+      · intro b hb i h1 h2
+        simp only [giveUp, List.mem_append]
+        left; exact h.ackedIn b hb i h1 h2
+      · intro x hx; simp only [giveUp, List.mem_append]; left; exact h.mono x hx
+    · exact h
   | quota j =>
     simp only [pstep]
     split
@@ -360,6 +403,7 @@ theorem pstep_consts (c : Cfg) (s : PSt) (op : POp) :
         · exact ⟨rfl, rfl⟩
       | hand w => exact ⟨hcs.1, hcs2⟩
       | err w => exact ⟨hcs.1, hcs2⟩
+      | abandon w => exact ⟨hcs.1, hcs2⟩
       | close => exact ⟨hcs.1, hcs2⟩
       | cancel => exact ⟨hcs.1, hcs2⟩
       | respRaw w k => simp [fetchOpOk] at hok
@@ -378,6 +422,11 @@ theorem pstep_consts (c : Cfg) (s : PSt) (op : POp) :
     · exact ⟨rfl, rfl⟩
   | take j b => simp only [pstep]; split <;> exact ⟨rfl, rfl⟩
   | ack j => simp only [pstep]; split <;> exact ⟨rfl, rfl⟩
+  | ackPartial j refused =>
+    simp only [pstep]
+    split
+    · simp [giveUp, step]
+    · exact ⟨rfl, rfl⟩
   | quota j =>
     simp only [pstep]
     split
